@@ -602,3 +602,57 @@ pub fn op_tables_rule(cx: &Cx, rep: &mut Report) {
     }
     rep.unanalysable("operator tables", &ev.unsupported.borrow());
 }
+
+/// DM-change_owned, DM-to_ref_elem, DM-to_rhs: the helpers of the impl-item builder
+pub fn impl_helpers_rule(cx: &Cx, rep: &mut Report) {
+    let ix = &cx.ix;
+    let ev = mk_ev(ix);
+    // change_owned(expr, ty, input_ref, output_ref)
+    if let Some(f) = find_fn(ix, &|f| f.self_ty.is_none() && sig_text(f).contains("bool,") && sig_text(f).contains("->TokenStream") && sig_text(f).matches("bool").count() == 2 && sig_text(f).contains("&Type")) {
+        for (i, o) in [(false, false), (false, true), (true, false), (true, true)] {
+            let outs = ev.call_fn(St::new(), &f, None, vec![sym("TokenStream", "expr"), sym("Type", "ty"), Val::Bool(i), Val::Bool(o)]);
+            let ok = outs.len() == 1 && match &outs[0].1 {
+                Flow::Val(Val::Sym { path, .. }) => i == o && path == "expr",
+                Flow::Val(Val::Tmpl(t)) => {
+                    let tk = t.tokens.replace(' ', "");
+                    let uses_expr = t.holes.iter().any(|(_, v)| matches!(v, Val::Sym { path, .. } if path == "expr"));
+                    if i && !o { tk.contains("clone::Clone>::clone(#expr)") && uses_expr && t.holes.iter().any(|(_, v)| matches!(v, Val::Sym { path, .. } if path == "ty")) } else if !i && o { tk == "&#expr" && uses_expr } else { false }
+                }
+                _ => false,
+            };
+            rep.check(ok, "DM-change_owned", &f.qual, &format!("received-by-ref:{i},needed-by-ref:{o}"), "the operand adapter is not: clone iff received by reference and needed by value; borrow iff received by value and needed by reference; identity otherwise", &site(&f), json!({}));
+        }
+    } else { rep.fail("unanalysable", "impl", "change_owned", "operand adapter (TokenStream, &Type, bool, bool) -> TokenStream not found", "item_impl.rs", json!({})); }
+    // to_ref_elem: only `&T` without lifetime and without `mut`
+    if let Some(f) = find_fn(ix, &|g| g.self_ty.is_none() && sig_text(g).contains("->(Type,bool)")) {
+        let outs = ev.call_fn(St::new(), &f, None, vec![sym("Type", "ty")]);
+        let mut ok = !outs.is_empty();
+        for (st, fl) in &outs {
+            let is_ref = st.cond.get("ty is Reference").copied().unwrap_or(false);
+            let lt_none = st.cond.iter().find(|(a, _)| a.contains("lifetime")).map(|(a, b)| if a.contains("is_none") { *b } else { !*b });
+            let mu_none = st.cond.iter().find(|(a, _)| a.contains("mutability")).map(|(a, b)| if a.contains("is_none") { *b } else { !*b });
+            let Flow::Val(Val::Tuple(t)) = fl else { ok = false; continue };
+            let flag = matches!(t.get(1), Some(Val::Bool(true)));
+            let want = is_ref && lt_none == Some(true) && mu_none == Some(true);
+            if flag != want { ok = false; }
+            if flag && !t[0].any(&|x| matches!(x, Val::Sym { path, .. } if path.contains("elem"))) { ok = false; }
+            if !flag && !t[0].any(&|x| matches!(x, Val::Sym { path, .. } if path == "ty")) { ok = false; }
+        }
+        rep.check(ok, "DM-to_ref_elem", &f.qual, "reference-form", "a base operand type counts as `by reference` not exactly when it is `&T` without lifetime and without `mut`", &site(&f), json!({}));
+    }
+    // to_rhs: the single generic type argument of the trait, else Self type
+    if let Some(f) = find_fn(ix, &|g| g.self_ty.is_none() && sig_text(g).contains("&PathSegment") && sig_text(g).contains("->Type")) {
+        let outs = ev.call_fn(St::new(), &f, None, vec![sym("PathSegment", "s"), sym("Type", "self_ty")]);
+        let mut saw_arg = false;
+        let mut saw_default = false;
+        let mut ok = true;
+        for (st, fl) in &outs {
+            let Flow::Val(v) = fl else { ok = false; continue };
+            let one_type_arg = st.cond.iter().any(|(a, b)| *b && a.contains("==1")) && st.cond.iter().any(|(a, b)| *b && a.ends_with(" is Type")) && st.cond.iter().any(|(a, b)| *b && a.ends_with(" is AngleBracketed"));
+            if one_type_arg { saw_arg = true; if !v.any(&|x| matches!(x, Val::Opaque { what, deps } if what == "expand_self" && deps.iter().any(|d| matches!(d, Val::Sym { path, .. } if path == "self_ty")))) { ok = false; } }
+            else { saw_default = true; if !matches!(v, Val::Sym { path, .. } if path == "self_ty") && !v.any(&|x| matches!(x, Val::Sym { path, .. } if path == "self_ty")) { ok = false; } }
+        }
+        rep.check(ok && saw_arg && saw_default, "DM-to_rhs", &f.qual, "rhs-default", "Rhs is not: the trait's single type argument (with Self expanded), else the Self type", &site(&f), json!({}));
+    }
+    rep.unanalysable("impl helpers", &ev.unsupported.borrow());
+}
